@@ -6,6 +6,8 @@
 From TL Require Import Lib.Base Lib.GenTypes Model.PathLocTypes Gen.PathLocGen Model.PathLoc Model.PathLocRun
      Actual.PathLocActual Proofs.PathLocStr Proofs.PathLocMain.
 
+(* Since the fix: commits b20520c (exclusion on the path inside the project) and 12368d4 (file-placement re-roots relative paths)
+   `flags_off` guards only the four quirks that are still present: q_excl_all_parts and q_fp_relative_unchanged may have any value. *)
 (* 1. Flags off: for EVERY prefix `lead`, absolute or relative spelling (including ".."-spellings, through `resolve`),
       working directory and linter command, the violations of a file are those decided on its path inside the project. *)
 Theorem C09_location_independent : forall q e sg cfg ab lead rel lg raw,
@@ -40,11 +42,17 @@ Proof. exact two_locations_agree. Qed.
 Print Assumptions C09_two_locations_agree.
 
 (* 2. Exact characterisation of what the code's predicates add (partial: the full statement is 1). *)
-(* built-in exclusion as coded = exclusion by the path inside the project OR a leading component is an excluded name *)
-Theorem C09_exclusion_partial : forall ab lead rel name,
+(* the built-in exclusion predicate applied to a path as given = exclusion by the path inside the project OR a leading component
+   is an excluded name.  (Since fix b20520c the source applies it to the re-rooted path, so this no longer describes the faithful
+   model - C09_exclusion_scope_repaired - but it is what the reverting patch brings back.) *)
+Theorem C09_exclusion_partial : forall ab lead rel name, rel <> [] ->
   hard_excluded (all_parts (GP ab (lead ++ rel))) name = hard_excluded rel name || existsb excl_comp lead.
 Proof. exact hard_excluded_given. Qed.
 Print Assumptions C09_exclusion_partial.
+
+Theorem C09_exclusion_scope_repaired : scope_given hard_exclusion_scope = false /\ fp_relative_paths_rerooted = true.
+Proof. exact (conj exclusion_scope_now fp_rerooted_now). Qed.
+Print Assumptions C09_exclusion_scope_repaired.
 
 (* substring tests on str(path) (test markers, per-linter ignore lists) = found in "/" ++ path inside the project
    OR found in the leading string followed by "/" — for patterns with "/" only at their ends *)
@@ -75,13 +83,12 @@ Proof. exact parser_view_abs_under_root. Qed.
 Print Assumptions C09_reroot_partial.
 
 (* 3. Confinement: for EVERY quirk vector — in particular the faithful one — the result is the specification when the
-      target is spelled absolutely and no leading component is an excluded name, the leading string contains no marker /
+      target is spelled absolutely (an excluded directory name above the project no longer matters), the leading string contains no marker /
       ignore pattern, Path.match patterns are no longer than the path inside the project, and the working directory
       brings no ignore patterns of its own. *)
 Theorem C09_confinement_absolute_partial : forall q e sg cfg lead rel lg raw,
   rel <> [] -> e_root e = lead ->
   resolve (e_cwd e) (GP true (lead ++ rel)) = lead ++ rel ->
-  existsb excl_comp lead = false ->
   pats_clean (cs_ikind sg) (ignore_pats sg cfg) (rooted lead ++ String slash "") rel = true ->
   tspec_simple (tspec_of sg lg) = true ->
   any_sub (t_str_contains (tspec_of sg lg)) (rooted lead ++ String slash "") = false ->
@@ -96,7 +103,6 @@ Theorem C09_confinement_absolute_cmd_partial : forall q e n sg cfg lead rel lg r
   find_sig n = Some sg ->
   rel <> [] -> e_root e = lead ->
   resolve (e_cwd e) (GP true (lead ++ rel)) = lead ++ rel ->
-  existsb excl_comp lead = false ->
   pats_clean (cs_ikind sg) (ignore_pats sg cfg) (rooted lead ++ String slash "") rel = true ->
   any_sub (t_str_contains (tspec_of sg lg)) (rooted lead ++ String slash "") = false ->
   (cs_cwd_parser sg = false \/ list_eqb (e_cwd e) (e_root e) = true \/ e_cwd_pats e = []) ->
@@ -136,7 +142,6 @@ Example C09_nonvacuous :
   resolve (e_cwd ex_env) (GP true (["srv"; "work"; "proj"] ++ ["src"; "mod.ts"])) = ["srv"; "work"; "proj"] ++ ["src"; "mod.ts"]
   /\ resolve ["srv"; "elsewhere"] (GP false ([".."; "work"; "proj"] ++ ["src"; "mod.ts"])) = ["srv"; "work"; "proj"] ++ ["src"; "mod.ts"]
   /\ resolve ["srv"; "work"; "proj"; "src"; "sub"] (GP false [".."; "mod.ts"]) = ["srv"; "work"; "proj"] ++ ["src"; "mod.ts"]
-  /\ existsb excl_comp ["srv"; "work"; "proj"] = false
   /\ pats_clean (cs_ikind ex_sig) (ignore_pats ex_sig (Some ["tests/"; "*_test.py"])) (rooted ["srv"; "work"; "proj"] ++ String slash "") ["src"; "mod.ts"] = true
   /\ tspec_simple (tspec_of ex_sig LTs) = true
   /\ any_sub (t_str_contains (tspec_of ex_sig LTs)) (rooted ["srv"; "work"; "proj"] ++ String slash "") = false
